@@ -1051,9 +1051,785 @@ def correspond(ctx: Ctx) -> None:
     stream_emit(ctx)
 
 
+# --------------------------------------------------------------------------- direct oracle (independent of the Lean model)
+# The observable parts of C09 that can be decided without building an SDK:
+#  (a) constants and enumeration literals of the generated TypeScript / Java / C++ files equal those of the imported Python SDK
+#      (the generated definitions are executed stand-alone: node / javac+java / g++);
+#  (b) the message literals of every invariant in the three generated verification files decode (node / javac / g++ as readers
+#      of the literal text) to the description the Python SDK reports, in the same per-owner order;
+#  (c) every invariant of the Python verification has its check in each target (none silently skipped).
+
+import pathlib
+import subprocess
+
+_STR = r'"(?:[^"\\\n]|\\.)*"'
+
+
+def _norm(name: str) -> str:
+    return re.sub(r"[^a-z0-9]", "", name.lower())
+
+
+def _utf16(s: str) -> Tuple[int, ...]:
+    b = s.encode("utf-16-le", "surrogatepass")
+    return tuple(int.from_bytes(b[i:i + 2], "little") for i in range(0, len(b), 2))
+
+
+def _run(cmd: List[str], cwd: pathlib.Path, timeout: int = 600) -> Tuple[int, str, str]:
+    pr = subprocess.run(cmd, cwd=str(cwd), stdout=subprocess.PIPE, stderr=subprocess.PIPE, timeout=timeout)
+    return pr.returncode, pr.stdout.decode("utf-8", "replace"), pr.stderr.decode("utf-8", "replace")
+
+
+# ---- Python side (the reference)
+
+def python_reference(sdk: Any, st: Any) -> Dict[str, Any]:
+    """Constants and enumerations as the imported Python SDK exposes them, descriptions as its verification module holds them."""
+    from aas_core_codegen import intermediate as I
+    from aas_core_codegen.python import naming as pn
+
+    consts: Dict[str, Any] = {}
+    for c in st.constants:
+        v = getattr(sdk.constants, str(pn.constant_name(c.name)))
+        if isinstance(v, (set, frozenset)):
+            items = []
+            for x in v:
+                is_enum = hasattr(x, "name") and hasattr(x, "value") and not isinstance(x, (int, str, float, bytes))
+                items.append(("enum", type(x).__name__, x.name) if is_enum else x)
+            consts[str(c.name)] = ("set", items)
+        else:
+            consts[str(c.name)] = ("val", v)
+    enums: Dict[str, List[Tuple[str, str]]] = {}
+    for t in st.our_types:
+        if isinstance(t, I.Enumeration):
+            cls = getattr(sdk.types, str(pn.enum_name(t.name)))
+            enums[str(t.name)] = [(str(lit.name), getattr(cls, str(pn.enum_literal_name(lit.name))).value) for lit in t.literals]
+    # descriptions from the generated verification.py, per owner in order
+    src = (sdk.package_dir / "verification.py").read_text(encoding="utf-8")
+    tree = ast.parse(src)
+    by_fn: Dict[str, List[str]] = {}
+    for fn in ast.walk(tree):
+        if isinstance(fn, ast.FunctionDef) and (fn.name.startswith("transform_") or fn.name.startswith("verify_")):
+            found = []
+            for st_ in fn.body:
+                if isinstance(st_, ast.If):
+                    for sub in st_.body:
+                        if isinstance(sub, ast.Expr) and isinstance(sub.value, ast.Yield) and isinstance(sub.value.value, ast.Call) \
+                                and isinstance(sub.value.value.func, ast.Name) and sub.value.value.func.id == "Error" \
+                                and len(sub.value.value.args) == 1:
+                            arg = sub.value.value.args[0]
+                            found.append(eval(compile(ast.Expression(arg), "<literal>", "eval"), {"__builtins__": {}}))  # noqa: S307
+            by_fn.setdefault(_norm(fn.name), []).extend(found)
+    descr: Dict[str, List[str]] = {}
+    for t in st.our_types:
+        if isinstance(t, I.Enumeration):
+            continue
+        key = _norm(("verify_" if isinstance(t, I.ConstrainedPrimitive) else "transform_") + str(t.name))
+        descr[str(t.name)] = by_fn.get(key, [])
+    return {"consts": consts, "enums": enums, "descr": descr}
+
+
+# ---- TypeScript
+
+_TS_ENC = """
+function enc(v) {
+  if (typeof v === 'string') { const a = []; for (let i = 0; i < v.length; i++) a.push(v.charCodeAt(i)); return {s: a}; }
+  if (typeof v === 'number') return {n: String(v), int: Number.isInteger(v)};
+  if (typeof v === 'boolean') return {b: v};
+  if (v instanceof Set) return {set: Array.from(v, enc)};
+  if (v instanceof Uint8Array) return {y: Array.from(v)};
+  if (v && v.enumLit) return {e: v.enumLit};
+  return {u: String(v)};
+}
+"""
+
+
+def ts_constants(text: str, scratch: pathlib.Path) -> Any:
+    """Run the definitions of constants.ts under node (type arguments erased, ``AasTypes.E.L`` replaced by a marker)."""
+    names = re.findall(r"^export const (\w+)", text, re.M)
+    body = re.sub(r"^import .*$", "", text, flags=re.M)
+    body = re.sub(r"new Set<[^>(]*>\(", "new Set(", body)
+    body = re.sub(r"^export const (\w+)\s*:\s*[^=\n]+=", r"const \1 =", body, flags=re.M)
+    body = body.replace("export const ", "const ")
+    js = ("const AasTypes = new Proxy({}, {get: (_, e) => new Proxy({}, {get: (_, l) => ({enumLit: [String(e), String(l)]})})});\n"
+          + body + _TS_ENC + "console.log(JSON.stringify({" + ", ".join(f"{json.dumps(n)}: enc({n})" for n in names) + "}));\n")
+    f = scratch / "constants.js"
+    f.write_text(js, encoding="utf-8")
+    rc, out, err = _run(["node", str(f)], scratch)
+    if rc != 0:
+        return {"error": err.strip().splitlines()[-1][:300] if err.strip() else "node failed"}
+    return json.loads(out)
+
+
+def ts_enums(text: str) -> Dict[str, List[Tuple[str, str]]]:
+    out: Dict[str, List[Tuple[str, str]]] = {}
+    for m in re.finditer(r"new Map<AasTypes\.(\w+), string>\(\[(.*?)\]\);", text, re.S):
+        out[m.group(1)] = re.findall(r"\[AasTypes\.\w+\.(\w+),\s*(" + _STR + r")\]", m.group(2))
+    return out
+
+
+def _sections(text: str, header: str) -> List[Tuple[str, str]]:
+    """[(captured name, text up to the next header)]"""
+    ms = list(re.finditer(header, text, re.M))
+    return [(m.group(1), text[m.end(): (ms[i + 1].start() if i + 1 < len(ms) else len(text))]) for i, m in enumerate(ms)]
+
+
+def ts_descriptions(text: str) -> Dict[str, List[List[str]]]:
+    out: Dict[str, List[List[str]]] = {}
+    for name, sec in _sections(text, r"\*(transform\w+WithContext|verify\w+)\s*\("):
+        out.setdefault(_norm(name), []).extend(
+            re.findall(_STR, m.group(1)) for m in re.finditer(r"yield new VerificationError\(\s*((?:" + _STR + r"\s*\+?\s*)+)\)", sec))
+    return out
+
+
+# ---- Java
+
+_JAVA_DUMP = """
+import java.lang.reflect.*;
+import java.util.*;
+public class Dump {
+  static String enc(Object v) {
+    if (v == null) return "null";
+    if (v instanceof String) { StringBuilder sb = new StringBuilder("s"); String s = (String) v; for (int i = 0; i < s.length(); i++) sb.append(' ').append((int) s.charAt(i)); return sb.toString(); }
+    if (v instanceof Boolean) return "b " + v;
+    if (v instanceof Long || v instanceof Integer || v instanceof Short) return "i " + v;
+    if (v instanceof Float) return "f Float " + ((Float) v).doubleValue();
+    if (v instanceof Double) return "f Double " + v;
+    if (v instanceof byte[]) { StringBuilder sb = new StringBuilder("y"); for (byte b : (byte[]) v) sb.append(' ').append(b & 0xff); return sb.toString(); }
+    if (v instanceof Enum) return "e " + v.getClass().getSimpleName() + " " + ((Enum<?>) v).name();
+    if (v instanceof Set) { List<String> xs = new ArrayList<>(); for (Object x : (Set<?>) v) xs.add(enc(x)); Collections.sort(xs); return "S " + String.join(" | ", xs); }
+    return "u " + v;
+  }
+  public static void main(String[] a) throws Exception {
+    for (Field f : Class.forName(a[0]).getFields()) {
+      if (Modifier.isStatic(f.getModifiers())) System.out.println(f.getName() + "\\t" + enc(f.get(null)));
+    }
+  }
+}
+"""
+
+
+def java_constants(root: pathlib.Path, scratch: pathlib.Path) -> Any:
+    """Compile Constants.java + the enumerations with javac and read every public static field by reflection."""
+    consts = list(root.rglob("Constants.java"))
+    if not consts:
+        return {"error": "Constants.java not generated"}
+    enums = [p for p in root.rglob("*.java") if "enums" in p.parts]
+    pkg = re.search(r"^package ([\w.]+);", consts[0].read_text(encoding="utf-8"), re.M)
+    out_dir = scratch / "jclasses"
+    out_dir.mkdir(exist_ok=True)
+    (scratch / "Dump.java").write_text(_JAVA_DUMP, encoding="utf-8")
+    rc, _, err = _run(["javac", "-encoding", "UTF-8", "-nowarn", "-d", str(out_dir), str(scratch / "Dump.java")]
+                      + [str(p) for p in consts + enums], scratch)
+    if rc != 0:
+        first = [ln for ln in err.splitlines() if "error:" in ln]
+        return {"error": (first[0].split("error:", 1)[1].strip() if first else err.strip()[:200]), "n_errors": len(first)}
+    rc, out, err = _run(["java", "-cp", str(out_dir), "Dump", (pkg.group(1) + "." if pkg else "") + "Constants"], scratch)
+    if rc != 0:
+        return {"error": "running: " + err.strip()[:200]}
+    res = {}
+    for line in out.splitlines():
+        n, _, v = line.partition("\t")
+        res[n] = v
+    return res
+
+
+def java_enums(root: pathlib.Path) -> Dict[str, List[Tuple[str, str]]]:
+    out: Dict[str, List[Tuple[str, str]]] = {}
+    for p in root.rglob("Stringification.java"):
+        text = p.read_text(encoding="utf-8")
+        for en, lit, val in re.findall(r"temp\.put\((\w+)\.(\w+),\s*(" + _STR + r")\);", text):
+            out.setdefault(en, []).append((lit, val))
+    return out
+
+
+def java_descriptions(root: pathlib.Path) -> Dict[str, List[List[str]]]:
+    out: Dict[str, List[List[str]]] = {}
+    for p in root.rglob("Verification.java"):
+        text = p.read_text(encoding="utf-8")
+        for name, sec in _sections(text, r"Stream<Reporting\.Error>\s+(transform\w+|verify\w+)\s*\("):
+            out.setdefault(_norm(name), []).extend(
+                re.findall(_STR, m.group(1)) for m in re.finditer(r"new Reporting\.Error\(\s*((?:" + _STR + r"\s*\+?\s*)+)\)", sec))
+    return out
+
+
+# ---- C++
+
+_CPP_MAIN = """
+#include <cstdio>
+#include <type_traits>
+template <class T> typename std::enable_if<std::is_enum<T>::value>::type dump(const T& v) { std::printf("e %llu", (unsigned long long) v); }
+void dump(const bool& v) { std::printf("b %s", v ? "true" : "false"); }
+void dump(const int64_t& v) { std::printf("i %lld", (long long) v); }
+void dump(const double& v) { std::printf("f %.17g", v); }
+void dump(const std::wstring& v) { std::printf("s"); for (wchar_t c : v) std::printf(" %lu", (unsigned long) c); }
+void dump(const std::vector<std::uint8_t>& v) { std::printf("y"); for (auto c : v) std::printf(" %u", (unsigned) c); }
+template <class T, class H> void dump(const std::unordered_set<T, H>& v) { std::printf("S"); for (const auto& x : v) { std::printf(" | "); dump(x); } }
+"""
+
+
+def cpp_constants(root: pathlib.Path, scratch: pathlib.Path) -> Any:
+    """Compile constants.cpp against constants.hpp with ``types.hpp`` replaced by the enumeration definitions it contains."""
+    hpp = next(iter(root.rglob("constants.hpp")), None)
+    cpp = next(iter(root.rglob("constants.cpp")), None)
+    types = next(iter(root.rglob("types.hpp")), None)
+    if hpp is None or cpp is None or types is None:
+        return {"error": "constants.hpp / constants.cpp / types.hpp not generated"}
+    ttext = types.read_text(encoding="utf-8")
+    enums = re.findall(r"^enum class \w+ : [\w:]+ \{.*?^\};", ttext, re.S | re.M)
+    htext = hpp.read_text(encoding="utf-8")
+    inc = re.search(r'#include "([^"]*types\.hpp)"', htext)
+    spaces = re.findall(r"^namespace (\w+) \{", htext, re.M)
+    if inc is None or len(spaces) < 2:
+        return {"error": "unexpected shape of constants.hpp"}
+    prelude = "#include <cstdint>\n#include <string>\n#include <vector>\n#include <unordered_set>\n" + \
+        "".join(f"namespace {n} {{\n" for n in spaces[:-1]) + "namespace types {\n" + "\n".join(enums) + "\n}\n" + "}\n" * len(spaces[:-1])
+    rel = re.search(r'#include "([^"]*constants\.hpp)"', cpp.read_text(encoding="utf-8"))
+    if rel is None:
+        return {"error": "constants.cpp does not include constants.hpp"}
+    inc_dir = scratch / "cinc"
+    target = inc_dir / rel.group(1)
+    target.parent.mkdir(parents=True, exist_ok=True)
+    target.write_text(htext.replace(inc.group(0), prelude), encoding="utf-8")
+    decls = re.findall(r"^extern const (.+?) (k\w+);", htext, re.M)
+    ns = "::".join(spaces)
+    main = f'#include "{rel.group(1)}"\n' + _CPP_MAIN + "int main() {\n" + \
+        "".join(f'  std::printf("{n}\\t"); dump({ns}::{n}); std::printf("\\n");\n' for _, n in decls) + "  return 0;\n}\n"
+    (scratch / "cmain.cpp").write_text(main, encoding="utf-8")
+    exe = scratch / "cconst"
+    rc, _, err = _run(["g++", "-std=c++17", "-w", "-I", str(inc_dir), str(cpp), str(scratch / "cmain.cpp"), "-o", str(exe)], scratch)
+    if rc != 0:
+        first = [ln for ln in err.splitlines() if "error:" in ln]
+        return {"error": (first[0].split("error:", 1)[1].strip() if first else err.strip()[:200])}
+    rc, out, err = _run([str(exe)], scratch)
+    if rc != 0:
+        return {"error": "running: " + err.strip()[:200]}
+    by_value: Dict[str, Dict[str, str]] = {}
+    for e in enums:
+        pairs = re.findall(r"^\s*(k\w+)\s*=\s*(\d+)", e, re.M)
+        by_value[re.search(r"enum class (\w+)", e).group(1)] = {v: n for n, v in pairs}
+    res: Dict[str, Any] = {}
+    type_of = {n: t for t, n in decls}
+    for line in out.splitlines():
+        n, _, v = line.partition("\t")
+        m = re.search(r"types::(\w+)", type_of.get(n, ""))
+        if m and m.group(1) in by_value:
+            table = by_value[m.group(1)]
+            v = re.sub(r"\be (\d+)", lambda mm_: f"e {m.group(1)} {table.get(mm_.group(1), '?' + mm_.group(1))}", v)
+        res[n] = v
+    return res
+
+
+def cpp_enums(root: pathlib.Path) -> Dict[str, List[Tuple[str, str]]]:
+    out: Dict[str, List[Tuple[str, str]]] = {}
+    for p in root.rglob("stringification.cpp"):
+        text = p.read_text(encoding="utf-8")
+        for en, lit, val in re.findall(r"case types::(\w+)::(\w+):\s*return (" + _STR + r");", text):
+            out.setdefault(en, []).append((lit, val))
+    return out
+
+
+def cpp_descriptions(root: pathlib.Path) -> Dict[str, List[List[str]]]:
+    out: Dict[str, List[List[str]]] = {}
+    for p in root.rglob("verification.cpp"):
+        text = p.read_text(encoding="utf-8")
+        for name, sec in _sections(text, r"^void (Of\w+)::Execute\(\) \{"):
+            out.setdefault(_norm(name), []).extend(
+                re.findall("L" + _STR, m.group(1)) for m in re.finditer(r"make_unique<Error>\(\s*((?:L" + _STR + r"\s*)+)\)", sec))
+    return out
+
+
+# ---- judging one model
+
+_TARGET_DIR = {"ts": "typescript", "java": "java", "cpp": "cpp"}
+
+EXTRA_CONSTANTS = '''
+Ratio: float = constant_float(value=1.5, description="A ratio.")
+
+Tenth: float = constant_float(value=0.1, description="Not a binary fraction.")
+
+Big: int = constant_int(value=9007199254740992, description="2**53: beyond the int range of Java and C++ literals.")
+
+Greeting: str = constant_str(value="hi \\"there\\"\\n\\t\\\\ \\u00e4\\u20ac \\U0001F600 ${x} `q` {y}", description="A greeting.")
+
+Enabled: bool = constant_bool(value=True, description="A flag.")
+
+Disabled: bool = constant_bool(value=False, description="A flag.")
+
+Small_numbers: Set[int] = constant_set(values=[1, 2, 3, 4294967296], description="Small numbers.")
+
+Odd_words: Set[str] = constant_set(values=["a b", "\\u00e4", "x\\"y", "\\U0001F600"], description="Odd words.")
+
+Warm: Set[Color] = constant_set(values=[Color.Red], description="Warm colors.")
+'''
+
+CONSTANTS_MODEL = ENUMERATED_MODEL.replace(
+    'Limit: int = constant_int(value=5, description="A limit.")\n',
+    'Limit: int = constant_int(value=5, description="A limit.")\n' + EXTRA_CONSTANTS).replace(
+    '    Green = "GREEN"\n', '    Green = "GREEN"\n    Dark_blue = "dark blue \\"q\\" \\\\ end"\n')
+
+
+class Observed:
+    """What one model's generated files hold (raw literal texts still to be decoded)."""
+
+    def __init__(self, label: Any, src: str, st: Any, ref: Dict[str, Any]) -> None:
+        self.label, self.src, self.st, self.ref = label, src, st, ref
+        self.consts: Dict[str, Any] = {}
+        self.enums: Dict[str, Dict[str, List[Tuple[str, str]]]] = {}
+        self.descr: Dict[str, Dict[str, List[List[str]]]] = {}
+        self.gen_error: Dict[str, str] = {}
+        self.pending: Dict[str, Any] = {}
+
+
+def observe(ctx: Ctx, label: Any, src: str, pool: Any) -> Optional[Observed]:
+    """Generate the four SDKs of one model; the tool-chain runs (node, javac+java, g++) are submitted to ``pool``."""
+    sdk = mm.load_python_sdk(src, ctx.scratch() / f"py{ctx.evaluations}")
+    try:
+        if not sdk.ok:
+            ctx.hit("oracle:python-sdk-not-generated")
+            return None
+        st = sdk.symbol_table
+        ob = Observed(label, src, st, python_reference(sdk, st))
+    finally:
+        sdk.close()
+    ob.pending = {}
+    for lang in LANGS:
+        root = ctx.scratch() / f"gen{ctx.evaluations}" / lang
+        res = mm.generate(_TARGET_DIR[lang], src, root, symbol_table=st)
+        if not res.ok:
+            ob.gen_error[lang] = f"rc={res.rc} {res.exception or ''} {(res.stderr or '')[:200]}"
+            ctx.hit(f"oracle:{lang}:not-generated")
+            continue
+        sc = ctx.scratch() / f"run{ctx.evaluations}" / lang
+        sc.mkdir(parents=True, exist_ok=True)
+        if lang == "ts":
+            if st.constants:
+                ob.pending[lang] = pool.submit(ts_constants, (root / "src" / "constants.ts").read_text(encoding="utf-8"), sc)
+            ob.enums[lang] = ts_enums((root / "src" / "stringification.ts").read_text(encoding="utf-8"))
+            ob.descr[lang] = ts_descriptions((root / "src" / "verification.ts").read_text(encoding="utf-8"))
+        elif lang == "java":
+            if st.constants:
+                ob.pending[lang] = pool.submit(java_constants, root, sc)
+            ob.enums[lang] = java_enums(root)
+            ob.descr[lang] = java_descriptions(root)
+        else:
+            if st.constants:
+                ob.pending[lang] = pool.submit(cpp_constants, root, sc)
+            ob.enums[lang] = cpp_enums(root)
+            ob.descr[lang] = cpp_descriptions(root)
+        if not st.constants:
+            ob.consts[lang] = {}
+    return ob
+
+
+def _literals_of(obs: List[Observed]) -> Dict[str, List[str]]:
+    need: Dict[str, set] = {"js": set(), "java": set(), "cppwide": set(), "cppnarrow": set()}
+    for ob in obs:
+        for lang, key in (("ts", "js"), ("java", "java"), ("cpp", "cppnarrow")):
+            for pairs in ob.enums.get(lang, {}).values():
+                need[key].update(v for _, v in pairs)
+        for lang, key in (("ts", "js"), ("java", "java"), ("cpp", "cppwide")):
+            for lists in ob.descr.get(lang, {}).values():
+                for lits in lists:
+                    need[key].update(lits)
+    return {k: sorted(v) for k, v in need.items()}
+
+
+def decode_literals(ctx: Ctx, obs: List[Observed], pool: Any) -> Dict[Tuple[str, str], Any]:
+    """One node run, one javac batch, two g++ batches for all string literals of all models (run side by side)."""
+    from harness import c19_tc
+
+    need = _literals_of(obs)
+    jobs = {}
+    for key, fn in (("js", lambda l, d: c19_tc.read_js(l, "quoted", d)), ("java", lambda l, d: c19_tc.read_java(l, d)),
+                    ("cppwide", lambda l, d: c19_tc.read_cpp(l, "wide", d)), ("cppnarrow", lambda l, d: c19_tc.read_cpp(l, "narrow", d))):
+        if need[key]:
+            sc = ctx.scratch() / ("decode-" + key)
+            sc.mkdir(parents=True, exist_ok=True)
+            jobs[key] = pool.submit(fn, need[key], sc)
+    out: Dict[Tuple[str, str], Any] = {}
+    for key, fut in jobs.items():
+        for lit, v in zip(need[key], fut.result()):
+            out[(key, lit)] = v
+    return out
+
+
+def _expect_units(lang_key: str, s: str) -> Tuple[int, ...]:
+    if lang_key in ("js", "java"):
+        return _utf16(s)
+    if lang_key == "cppwide":
+        return tuple(ord(c) for c in s)
+    return tuple(s.encode("utf-8", "surrogatepass"))
+
+
+def _float_eq(a: float, b: float) -> bool:
+    return a == b or (a != a and b != b)
+
+
+def _f32(x: float) -> float:
+    import struct
+
+    try:
+        return struct.unpack("f", struct.pack("f", x))[0]
+    except OverflowError:
+        return float("inf") if x > 0 else float("-inf")
+
+
+def judge(ob: Observed, dec: Dict[Tuple[str, str], Any]) -> List[Tuple[str, str, Dict[str, Any]]]:
+    """[(sig, what, detail)] — every place where a generated TypeScript / Java / C++ file does not expose what the Python SDK exposes."""
+    from aas_core_codegen import intermediate as I
+    from aas_core_codegen.cpp import naming as cn
+    from aas_core_codegen.java import naming as jn
+    from aas_core_codegen.python import naming as pn
+    from aas_core_codegen.typescript import naming as tn
+
+    bad: List[Tuple[str, str, Dict[str, Any]]] = []
+    st, ref = ob.st, ob.ref
+    # a target that reports an error (or crashes: property C02) for the model produces no SDK to compare
+
+    def enum_names(lang: str, en: Any, lit: Any) -> Tuple[str, str]:
+        if lang == "ts":
+            return str(tn.enum_name(en)), str(tn.enum_literal_name(lit))
+        if lang == "java":
+            return str(jn.enum_name(en)), str(jn.enum_literal_name(lit))
+        return str(cn.enum_name(en)), str(cn.enum_literal_name(lit))
+
+    py_enum_of = {str(pn.enum_name(t.name)): t for t in st.our_types if isinstance(t, I.Enumeration)}
+
+    def norm_py_item(lang: str, x: Any) -> Any:
+        if isinstance(x, tuple) and x and x[0] == "enum":
+            t = py_enum_of[x[1]]
+            lit = next(l for l in t.literals if str(pn.enum_literal_name(l.name)) == x[2])
+            return ("e",) + enum_names(lang, t.name, lit.name)
+        if isinstance(x, bool):
+            return ("b", x)
+        if isinstance(x, int):
+            return ("i", x)
+        if isinstance(x, float):
+            return ("f", x)
+        if isinstance(x, str):
+            return ("s", tuple(ord(c) for c in x) if lang == "cpp" else _utf16(x))
+        if isinstance(x, (bytes, bytearray)):
+            return ("y", tuple(x))
+        return ("?", repr(x))
+
+    # ---- (a) constants
+    for lang in LANGS:
+        got = ob.consts.get(lang)
+        if got is None or not st.constants:
+            continue
+        if "error" in got:
+            if lang == "java" and "floating-point number too" in got["error"]:
+                # the root cause of C09-F3: float constants are `Float` (32 bit); a double outside its range is no Float literal
+                bad.append(("C09:constant:java:float32", "a float constant of the Python SDK is outside the range of the 32-bit `Float` "
+                            "of the Java SDK (javac: " + got["error"] + ")", {"target": lang}))
+                continue
+            bad.append((f"C09:constant:{lang}:compile", f"the generated {lang} constants do not compile / run stand-alone: {got['error']}",
+                        {"target": lang}))
+            continue
+        for c in st.constants:
+            kind, pv = ref["consts"][str(c.name)]
+            key = {"ts": str(tn.constant_name(c.name)), "java": str(jn.property_name(c.name)), "cpp": str(cn.constant_name(c.name))}[lang]
+            if key not in got:
+                bad.append((f"C09:constant:{lang}:missing", f"constant {c.name} is not defined in the {lang} SDK", {"target": lang, "constant": str(c.name)}))
+                continue
+            try:
+                items = _decode_const(lang, got[key], {})
+            except ValueError as e:
+                bad.append((f"C09:constant:{lang}:unreadable", f"constant {c.name}: {e}", {"target": lang, "constant": str(c.name)}))
+                continue
+            want = [norm_py_item(lang, x) for x in (pv if kind == "set" else [pv])]
+            if (kind == "set") != (items[0] == "set"):
+                bad.append((f"C09:constant:{lang}:set", f"constant {c.name}: a set in one SDK and a single value in the other", {"target": lang}))
+                continue
+            gvals = items[1]
+            tk = "set" if kind == "set" else want[0][0]
+            if not _same_items(lang, want, gvals, kind == "set"):
+                f32 = lang == "java" and all(w[0] == "f" for w in want) and _same_items(lang, [("f", _f32(w[1])) for w in want], gvals, kind == "set")
+                bad.append((f"C09:constant:{lang}:{'float32' if f32 else tk}",
+                            f"constant {c.name}: Python SDK has {want!r}, the {lang} SDK has {gvals!r}", {"target": lang, "constant": str(c.name)}))
+    # ---- enumeration literals
+    for t in st.our_types:
+        if not isinstance(t, I.Enumeration):
+            continue
+        want_pairs = ref["enums"][str(t.name)]
+        for lang, key in (("ts", "js"), ("java", "java"), ("cpp", "cppnarrow")):
+            if lang in ob.gen_error:
+                continue
+            en = enum_names(lang, t.name, t.literals[0].name)[0] if t.literals else None
+            got_pairs = ob.enums.get(lang, {}).get(en or "", [])
+            exp = [(enum_names(lang, t.name, lit.name)[1], val) for lit, (_, val) in zip(t.literals, want_pairs)]
+            got_dec = [(n, dec.get((key, v))) for n, v in got_pairs]
+            exp_dec = [(n, _expect_units(key, v)) for n, v in exp]
+            if got_dec != exp_dec:
+                bad.append((f"C09:enum:{lang}", f"enumeration {t.name}: the Python SDK has {want_pairs!r}, the {lang} SDK maps {got_pairs!r}",
+                            {"target": lang, "enumeration": str(t.name)}))
+    # ---- (b), (c) descriptions and count
+    for t in st.our_types:
+        if isinstance(t, I.Enumeration) or isinstance(t, I.AbstractClass):
+            continue
+        want = ref["descr"][str(t.name)]
+        is_cp = isinstance(t, I.ConstrainedPrimitive)
+        for lang, key in (("ts", "js"), ("java", "java"), ("cpp", "cppwide")):
+            if lang in ob.gen_error:
+                continue
+            fn = {"ts": ("verify" if is_cp else "transform") + str(t.name) + ("" if is_cp else "withcontext"),
+                  "java": ("verify" if is_cp else "transform") + str(t.name), "cpp": "of" + str(t.name)}[lang]
+            got = ob.descr.get(lang, {}).get(_norm(fn), [])
+            if len(got) != len(want):
+                bad.append((f"C09:count:{lang}", f"{t.name}: the Python verification checks {len(want)} invariants, the {lang} verification {len(got)}",
+                            {"target": lang, "owner": str(t.name)}))
+                continue
+            for d, lits in zip(want, got):
+                units: List[int] = []
+                ok = True
+                for lit in lits:
+                    v = dec.get((key, lit))
+                    if v is None:
+                        ok = False
+                        break
+                    units.extend(v)
+                if not ok:
+                    bad.append((f"C09:description:{lang}:unreadable", f"{t.name}: a message literal of the {lang} verification is rejected by the tool-chain: {lits!r}",
+                                {"target": lang, "owner": str(t.name)}))
+                elif tuple(units) != _expect_units(key, d):
+                    prefix = _expect_units(key, "Invariant violated:\n")
+                    sig = f"C09:description:{lang}:prefix" if tuple(units) == prefix + _expect_units(key, d) else f"C09:description:{lang}"
+                    bad.append((sig, f"{t.name}: the Python SDK reports {d!r}, the {lang} SDK reports {_show_units(key, units)!r}",
+                                {"target": lang, "owner": str(t.name), "description": d}))
+    return bad
+
+
+def _show_units(key: str, units: Sequence[int]) -> str:
+    if key in ("js", "java"):
+        return b"".join(int(u).to_bytes(2, "little") for u in units).decode("utf-16-le", "replace")
+    if key == "cppwide":
+        return "".join(chr(u) if u < 0x110000 else "?" for u in units)
+    return bytes(units).decode("utf-8", "replace")
+
+
+def _decode_const(lang: str, got: Any, cpp_enums_order: Dict[str, List[str]]) -> Tuple[str, List[Any]]:
+    """('set' | 'val', [items]) with items as ('s', units) ('i', int) ('f', float) ('b', bool) ('y', bytes) ('e', enum, literal)"""
+    if lang == "ts":
+        def one(v: Any) -> Any:
+            if "s" in v:
+                return ("s", tuple(v["s"]))
+            if "n" in v:
+                return ("n", float(v["n"]), v["int"])
+            if "b" in v:
+                return ("b", v["b"])
+            if "y" in v:
+                return ("y", tuple(v["y"]))
+            if "e" in v:
+                return ("e", v["e"][0], v["e"][1])
+            raise ValueError(f"unexpected value {v!r}")
+        return ("set", [one(x) for x in got["set"]]) if "set" in got else ("val", [one(got)])
+
+    def one_text(tx: str) -> Any:
+        tx = tx.strip()
+        k, _, rest = tx.partition(" ")
+        if k == "s":
+            return ("s", tuple(int(x) for x in rest.split()))
+        if k == "i":
+            return ("i", int(rest))
+        if k == "f":
+            return ("f", float(rest.split()[-1]))
+        if k == "b":
+            return ("b", rest == "true")
+        if k == "y":
+            return ("y", tuple(int(x) for x in rest.split()))
+        if k == "e":
+            en, lit = rest.split()
+            return ("e", en, lit)
+        raise ValueError(f"unexpected value {tx!r}")
+    if got.startswith("S"):
+        body = got[1:].strip()
+        parts = [p for p in body.split(" | ")] if body else []
+        parts = [p for p in (q.strip().lstrip("|").strip() for q in parts) if p]
+        return ("set", [one_text(p) for p in parts])
+    return ("val", [one_text(got)])
+
+
+def _same_items(lang: str, want: List[Any], got: List[Any], is_set: bool) -> bool:
+    def canon_w(w: Any) -> Any:
+        return w
+
+    def match(w: Any, g: Any) -> bool:
+        if w[0] in ("i", "f") and g[0] == "n":  # a TypeScript number
+            return (float(w[1]) == g[1] if w[0] == "i" else _float_eq(w[1], g[1])) and (w[0] != "i" or g[2]) and (w[0] != "i" or int(g[1]) == w[1])
+        if w[0] == "f" and g[0] == "f":
+            return _float_eq(w[1], g[1])
+        return tuple(w) == tuple(g)
+    if len(want) != len(got):
+        return False
+    if not is_set:
+        return match(want[0], got[0])
+    rest = list(got)
+    for w in want:
+        for k, g in enumerate(rest):
+            if match(w, g):
+                del rest[k]
+                break
+        else:
+            return False
+    return True
+
+
+_JAVA_REFEQ = """
+public class RefEq {
+  static String s(String x) { return new String(x); }
+  public static void main(String[] a) {
+    Long x = Long.valueOf(a.length + 1000L), y = Long.valueOf(a.length + 1000L);
+    System.out.println((s("ab") == "ab") + " " + (s("ab") != "ab") + " " + (x == y) + " " + (x == 1000L));
+  }
+}
+"""
+
+_java_refeq_cache: Dict[str, bool] = {}
+
+
+def java_reference_semantics(scratch: pathlib.Path) -> bool:
+    """javac + java: `==` on two Strings / two Longs compares references (equal values in different objects are unequal)."""
+    if "v" not in _java_refeq_cache:
+        d = scratch / "refeq"
+        d.mkdir(parents=True, exist_ok=True)
+        (d / "RefEq.java").write_text(_JAVA_REFEQ, encoding="utf-8")
+        rc, _, _ = _run(["javac", "-nowarn", "-d", str(d), str(d / "RefEq.java")], d)
+        out = _run(["java", "-cp", str(d), "RefEq"], d)[1].split() if rc == 0 else []
+        _java_refeq_cache["v"] = out == ["false", "true", "false", "true"]
+    return _java_refeq_cache["v"]
+
+
+def java_equality_failures(st: Any) -> List[Tuple[str, str, Dict[str, Any]]]:
+    """Invariants whose Java condition compares two Strings or two boxed numbers with `==` / `!=`: in Java that is a comparison
+    of references, in Python (and TypeScript, C++) of values — the Java SDK gives another verdict on equal values."""
+    from aas_core_codegen import intermediate as I
+    from aas_core_codegen.parse import tree as T
+
+    tg = Target("java", st)
+    ti = tg.ti
+    out: List[Tuple[str, str, Dict[str, Any]]] = []
+
+    def klass(node: Any, type_map: Any) -> str:
+        t = ti.beneath_optional(type_map[node])
+        p = ti.try_primitive_type(t)
+        if p is ti.PrimitiveType.STR:
+            return "str"
+        if p in (ti.PrimitiveType.INT, ti.PrimitiveType.FLOAT):
+            # literals and lengths are primitives (the other operand is unboxed); getters and constants are boxed
+            if isinstance(node, T.Constant) or (isinstance(node, T.FunctionCall) and node.name.identifier == "len"):
+                return "primitive"
+            if isinstance(node, (T.Add, T.Sub)):
+                return "primitive"
+            return "boxed-number"
+        return "other"
+
+    for owner in st.our_types:
+        if isinstance(owner, I.Enumeration):
+            continue
+        for inv in owner.invariants:
+            if inv.specified_for is not owner:
+                continue
+            try:
+                code, type_map, _, err = tg.real(owner, inv)
+            except BaseException:  # noqa: B902
+                continue
+            if code is None or type_map is None:
+                continue
+            try:
+                rtree = parse_target(code, "java")
+            except ParseError:
+                continue
+            n_eq = sum(1 for t in _subtrees(rtree) if t[0] == "bin" and t[1] in ("==", "!=") and ("id", "null") not in (t[2], t[3]))
+            for node in _walk_tree(inv.body):
+                if isinstance(node, T.Comparison) and node.op in (T.Comparator.EQ, T.Comparator.NE) and n_eq > 0:
+                    kl, kr = klass(node.left, type_map), klass(node.right, type_map)
+                    kind = "str" if kl == kr == "str" else ("boxed-number" if kl == kr == "boxed-number" else None)
+                    if kind:
+                        out.append((f"C09:java:reference-equality:{kind}",
+                                    f"{owner.name}: the Java condition `{' '.join(code.split())}` compares two {kind} operands with "
+                                    f"{'==' if node.op is T.Comparator.EQ else '!='} (references); the Python SDK compares the values",
+                                    {"target": "java", "owner": str(owner.name), "invariant": inv.description,
+                                     "expr": mm.render_expr(mm.expr_from_project_tree(inv.body))}))
+    return out
+
+
+def _subtrees(t: Any) -> Iterator[Any]:
+    if isinstance(t, tuple):
+        if t and isinstance(t[0], str):
+            yield t
+        for x in t[1:]:
+            yield from _subtrees(x)
+    elif isinstance(t, list):
+        for x in t:
+            yield from _subtrees(x)
+
+
+def oracle_sources(ctx: Ctx) -> Iterator[Tuple[str, str, Any]]:
+    import random as _random
+
+    for c in corpus(ID):
+        if "model" in c:
+            yield "corpus", c["model"], c.get("name", "corpus")
+    yield "constants", CONSTANTS_MODEL, "constants-model"
+    for name, text in fixture_sources()[:: (4 if ctx.tier == "quick" and not ctx.searching else 1)]:
+        yield "fixture", text, name
+    for k in range(ctx.n(2, 40)):
+        sub = ctx.rng.randrange(2**32)
+        ft = mm.Features()
+        ft.non_ascii_values = (k % 2 == 1)
+        if k % 3 == 2:
+            ft.joined_str_in_invariants = True
+        m = mm.random_mm(_random.Random(sub), size=2 + k % 3, features=ft)
+        yield "random", mm.render(m), {"k": k, "seed": ctx.seed, "subseed": sub}
+
+
+def run_oracle(ctx: Ctx, items: Sequence[Tuple[str, str, Any]]) -> List[Dict[str, Any]]:
+    from concurrent.futures import ThreadPoolExecutor
+
+    obs: List[Observed] = []
+    with ThreadPoolExecutor(max_workers=8) as pool:
+        refs_f = pool.submit(java_reference_semantics, ctx.scratch())
+        for stream, src, label in items:
+            ctx.count(("oracle", src), nontrivial=True, stream="oracle:" + stream)
+            ob = observe(ctx, label, src, pool)
+            if ob is None:
+                continue
+            obs.append(ob)
+            ctx.hit(f"oracle:{stream}:constants={'3+' if len(ob.st.constants) >= 3 else len(ob.st.constants)}")
+        dec = decode_literals(ctx, obs, pool) if obs else {}
+        for ob in obs:
+            for lang, fut in ob.pending.items():
+                ob.consts[lang] = fut.result()
+        refs = refs_f.result()
+    results = []
+    for ob in obs:
+        found = judge(ob, dec)
+        if refs:
+            found.extend(java_equality_failures(ob.st))
+        results.append({"label": ob.label, "failures": [(sig, what) for sig, what, _ in found]})
+        seen = set()
+        for sig, what, detail in found:
+            ctx.hit("oracle:fail:" + sig)
+            if sig in seen:
+                continue  # one failing input per root cause and model
+            seen.add(sig)
+            ctx.fail({"model": ob.src, "label": ob.label, **detail}, what, sig)
+        if not found:
+            ctx.hit("oracle:model-agrees")
+    return results
+
+
 def oracle(ctx: Ctx) -> None:
-    pass
+    run_oracle(ctx, list(oracle_sources(ctx)))
 
 
 def replay(ctx: Ctx, data: Dict[str, Any]) -> Any:
-    return {}
+    inp = data["failure"]["input"] if "failure" in data else data
+    src = inp["model"]
+    res: Dict[str, Any] = {"oracle": run_oracle(ctx, [("replay", src, inp.get("label", "replay"))])}
+    if ctx.driver_ok:
+        before = len(ctx.disagreements)
+        st, err = mm.load(src)
+        if st is not None:
+            emit_checks(ctx, st, src, "emit")
+        res["model_vs_impl_disagreements"] = ctx.disagreements[before:]
+    return res
